@@ -31,6 +31,7 @@ ANCHORS = {
         A('outrank/algorithms/importance_estimator.py', 'numba_mi'),
     ],
     'C04': [
+        A('outrank/algorithms/importance_estimator.py', 'conduct_feature_ranking'),
         A('outrank/algorithms/feature_ranking/ranking_mi_numba.py', 'stratified_subsampling'),
         A('outrank/algorithms/feature_ranking/ranking_mi_numba.py', 'mutual_info_estimator_numba'),
         A('outrank/algorithms/importance_estimator.py', 'numba_mi'),
